@@ -86,7 +86,10 @@ T1 = [("topaz", (0x11, 0x48), 120, "", []),
       # 257 / 258 bytes left for the NDEF TLV: both sides of the switch to the
       # three-byte length format in the capacity calculation
       ("dyn296:NNN", (0x13, 0x00), 296, "NNN", []),
-      ("dyn296:NN", (0x13, 0x00), 296, "NN", [])]
+      ("dyn296:NN", (0x13, 0x00), 296, "NN", []),
+      # reserved bytes up to the last byte of the declared data area, memory
+      # goes on behind it: a full message ends right in front of them
+      ("dyn296:M-tail", (0x13, 0x00), 296, "M", [(288, 8)])]
 
 
 def partitions(tier):
@@ -169,7 +172,7 @@ def partitions(tier):
 
 MUST_REACH = ["reread_with_outage", "format_wipe", "format_no_wipe", "rsv_inside_message", "rsv_beyond_data_area",
               "rsv_at_end_of_data_area", "rsv_before_ndef_tlv"]
-BOUNDS = {"quick": "the Type 1/2 structured layouts of C01 (incl. the 296-byte Type 1 layouts with 257/258 bytes left and 216 guard bytes behind the declared area), Type 3 (four triples, emulation too) and Type 4 (6 guard bytes behind the declared file) worlds; message lengths from boundary sets up to capacity+8; format with/without a symbolic wipe byte; all other memory symbolic; added later: has_changed interrupted at every command followed by a write through the same NDEF object; control TLVs with size byte 00h; a two-sector Type 2 tag written and wiped beyond 1 KiB",
+BOUNDS = {"quick": "the Type 1/2 structured layouts of C01 (incl. the 296-byte Type 1 layouts with 257/258 bytes left and 216 guard bytes behind the declared area), Type 3 (four triples, emulation too) and Type 4 (6 guard bytes behind the declared file) worlds; message lengths from boundary sets up to capacity+8; format with/without a symbolic wipe byte; all other memory symbolic; added later: has_changed interrupted at every command followed by a write through the same NDEF object; control TLVs with size byte 00h; a two-sector Type 2 tag written and wiped beyond 1 KiB; a 296-byte Type 1 layout whose last 8 declared bytes are reserved (memory goes on behind)",
           "thorough": "as quick with every length for 48-byte areas and larger data areas"}
 OUTSIDE = ["layouts with more than two lock- or memory-control TLVs of a kind", "Topaz/Topaz-512 format() on layouts other than the vendor's standard layout (it re-creates that layout by design)", "format(wipe) with a wipe value below 0x80 (value ranges of old and new contents are separated to avoid 2^pages forks)"]
 ASSUMPTIONS = ["NDEF message area := bytes from the NDEF TLV's length byte to the end of the data area minus reserved ranges, computed by the harness from the layout it generated"]
